@@ -156,6 +156,10 @@ def generate(seed: int, tier: str) -> Dict[str, Any]:
             muts.append({"kind": "set", "path": list(r.choice(secs)) + [r.choice([5, None, True, 1.5])], "value": r.choice([1, {}])})
         else:
             muts.append({"kind": "set", "path": [r.choice(["t1", "t2", "t3", "t4", "graph", "scheduler", "perf"])], "value": r.choice([None, [], "x", 5, {}])})
+    if r.chance(0.08):
+        # the same offence twice in one section: the validator then says the same sentence twice, and every front door has to
+        # pass both on
+        muts.append({"kind": "set", "path": ["t4", "cooldowns"], "value": {"$dict": r.choice([[[1, 1], [2, 2]], [[None, 1], [5, 2], [True, 3]], [[1.5, 0], [2.5, 0]]])}})   # non-string keys: kept as pairs in the program
     if r.chance(0.12):
         # the free-form `flags` section accepts anything - also what only YAML can spell, and containers of it
         muts.append({"kind": "set", "path": ["flags", r.choice(["d", "since", "x"])],
@@ -219,6 +223,8 @@ def build(p: Dict[str, Any]) -> Any:
                                "datetime": _dt.datetime(2024, 1, 1, 12, 0, 0),
                                "list_of_set": [{"alpha", "beta", "gamma", "delta", "epsilon"}],
                                "dict_of_date": {"since": _dt.date(2024, 1, 1)}}[m["value"]["$yaml"]])
+        if isinstance(m.get("value"), dict) and set(m["value"]) == {"$dict"}:
+            m = dict(m, value={kv[0]: kv[1] for kv in m["value"]["$dict"]})
         if isinstance(m.get("value"), dict) and set(m["value"]) == {"$pow10"}:
             m = dict(m, value=10 ** int(m["value"]["$pow10"]))   # kept symbolic in the program: no decimal text exists for it
         cur = tree
